@@ -5,6 +5,8 @@
 (*   strop_decomposition(vertices)       (events of kind "poly")           *)
 (*                                                                         *)
 (* grid event:  grid  = the 0/1 matrix handed in (list of rows, top first) *)
+(*              insts2, insts3 = the same instances looked at again (after *)
+(*                      str(instance); rectangles() a third time)          *)
 (*              is    = Strop.is_strop                                     *)
 (*              insts = every instance of instances(), each the list of    *)
 (*                      its rectangles() as <<r1, r2, c1, c2>>             *)
@@ -49,7 +51,9 @@ GridStep(e) ==
       cl == GridClauses(cells, rows, cols, e.is, e.insts)
   IN /\ AnalyseOn(cells, rows, cols)
      /\ g' = cells /\ nr' = rows /\ nc' = cols
+     \* every instance looked at again (after str(instance); rectangles() once more) must show the same rectangles
      /\ fails' = fails \cup { <<l, c, 0>> : c \in { c \in GridClauseNames : ~cl[c] } }
+                       \cup (IF e.insts2 = e.insts /\ e.insts3 = e.insts THEN {} ELSE { <<l, "second_look", 0>> })
      /\ drift' = IF Range(e.insts) = inst' /\ Len(e.insts) = Cardinality(inst') THEN drift
                  ELSE drift \cup { <<l, "instances", 0>> }
 
